@@ -7,6 +7,38 @@ fn kind_str(k: &prqlc::lr::TokenKind) -> String {
     format!("{k:?}")
 }
 
+/// the kind class spec/LexGen.tla assigns (payloads dropped, except the character of a control and the binding of a range)
+fn kind_class(k: &prqlc::lr::TokenKind) -> String {
+    use prqlc::lr::{Literal as L, TokenKind as T};
+    match k {
+        T::Start => "Start".into(),
+        T::NewLine => "NewLine".into(),
+        T::Ident(_) => "Ident".into(),
+        T::Keyword(_) => "Keyword".into(),
+        T::Literal(l) => match l {
+            L::Integer(_) => "Integer",
+            L::Float(_) => "Float",
+            L::Boolean(_) => "Boolean",
+            L::String(_) => "String",
+            L::RawString(_) => "RawString",
+            L::Date(_) => "Date",
+            L::Time(_) => "Time",
+            L::Timestamp(_) => "Timestamp",
+            L::ValueAndUnit(_) => "ValueAndUnit",
+            L::Null => "Null",
+        }
+        .into(),
+        T::Range { bind_left, bind_right } => format!("Range:{}{}", if *bind_left { "b" } else { "-" }, if *bind_right { "b" } else { "-" }),
+        T::Interpolation(_, _) => "Interpolation".into(),
+        T::Control(c) => format!("Control:{c}"),
+        T::LineWrap(_) => "LineWrap".into(),
+        T::Param(_) => "Param".into(),
+        T::Comment(_) => "Comment".into(),
+        T::DocComment(_) => "DocComment".into(),
+        other => format!("{other:?}"),
+    }
+}
+
 pub fn lex_event(src: &str, idx: &[usize]) -> J {
     let chars: Vec<char> = src.chars().collect();
     let widths: Vec<usize> = chars.iter().map(|c| c.len_utf8()).collect();
@@ -47,14 +79,14 @@ pub fn lex_event(src: &str, idx: &[usize]) -> J {
                     } else {
                         ("<bad-slice>".to_string(), 0)
                     };
-                    json!({"k": kind_str(&t.kind), "s": s, "e": e, "rk": rk, "rn": rn,
+                    json!({"k": kind_str(&t.kind), "c": kind_class(&t.kind), "s": s, "e": e, "rk": rk, "rn": rn,
                            "start": matches!(t.kind, prqlc::lr::TokenKind::Start)})
                 })
                 .collect();
-            json!({"event":"Lex","idx":idx,"w":widths,"ws":ws,"toks":toks,"api":api_ok,"api_ntok":api_ntok,"src":src})
+            json!({"event":"Lex","idx":idx,"w":widths,"ws":ws,"toks":toks,"api":api_ok,"api_ntok":api_ntok,"src":src,"chars":chars.iter().map(|c| c.to_string()).collect::<Vec<_>>()})
         }
         Ok(Err(errs)) => {
-            json!({"event":"LexReject","idx":idx,"w":widths,"ws":ws,"nerr":errs.len(),"api":api_ok,"api_nerr":api_nerr,"src":src})
+            json!({"event":"LexReject","idx":idx,"w":widths,"ws":ws,"nerr":errs.len(),"api":api_ok,"api_nerr":api_nerr,"src":src,"chars":chars.iter().map(|c| c.to_string()).collect::<Vec<_>>()})
         }
     }
 }
